@@ -133,6 +133,9 @@ func (g gen) signIndexes(m map[string]interface{}) {
 }
 
 func (g gen) rawKind() string {
+	if g.r.Intn(8) == 0 {
+		return "{raw.ds." + dsOwners[g.r.Intn(len(dsOwners))].name + "." + g.pick("a", "b", "c") + "}"
+	}
 	if g.r.Intn(2) == 0 {
 		return g.structRaw("")
 	}
@@ -671,6 +674,81 @@ func (g gen) genericRequest(path string) string {
 	return "http m=" + m + " p=" + path + " q=" + esc(formEncode(kvs)) + " ct=none b="
 }
 
+func httpGet(path, query string) string {
+	return "http m=GET p=" + path + " q=" + esc(query) + " ct=none b="
+}
+func httpForm(path, body string) string {
+	return "http m=POST p=" + path + " q= ct=form b=" + esc(body)
+}
+func httpJSON(path string, v interface{}) string {
+	b, _ := json.Marshal(v)
+	return "http m=POST p=" + path + " q= ct=json b=" + esc(string(b))
+}
+
+// poolConflict puts two or three individually valid transactions that spend the SAME output of `o` into
+// the unconfirmed pool (the node accepts each: it is checked against the confirmed chain only) and then
+// asks every view that combines confirmed outputs with the pool about the owner and the receivers.
+func (g gen) poolConflict(emit func(string), oi int) {
+	o := dsOwners[oi]
+	vs := []string{"a", "b", "c"}
+	n := 2 + g.r.Intn(2)
+	for _, v := range vs[:n] {
+		emit(httpJSON("/api/v1/injectTransaction", map[string]interface{}{"rawtx": "{raw.ds." + o.name + "." + v + "}", "no_broadcast": true}))
+	}
+	A := "{" + o.addr + "}"
+	qs := []string{
+		httpGet("/api/v1/balance", "addrs="+A),
+		httpForm("/api/v1/balance", "addrs="+A+",{a1},{a5}"),
+		httpGet("/api/v1/balance", "addrs={a1},{a5},{w0a2}"),
+		httpGet("/api/v1/balance", "addrs={a0},{a1},{a2},{a3},{a4},{a5},{w0a0},{w0a1},{w0a2},{w1a0},{w1a1},{w2a0},{w2a1}"),
+		httpGet("/api/v1/outputs", "addrs="+A),
+		httpGet("/api/v1/outputs", "hashes={dsux."+o.name+"}"),
+		httpGet("/api/v1/outputs", ""),
+		httpGet("/api/v1/pendingTxs", "verbose=1"),
+		httpGet("/api/v1/pendingTxs", ""),
+		httpGet("/api/v1/transactions", "addrs="+A+"&verbose=1&confirmed=0"),
+		httpGet("/api/v1/transactions", "addrs="+A+"&verbose=1"),
+		httpGet("/api/v1/transactions", "addrs="+A+",{a1}&confirmed=0"),
+		httpGet("/api/v2/transactions", "addrs="+A+"&verbose=1&limit=5&page=1"),
+		httpGet("/api/v2/transactions", "addrs={a1},{a5}&confirmed=0&sort=desc"),
+		httpGet("/api/v1/transaction", "txid={dstx."+o.name+".a}&verbose=1"),
+		httpGet("/api/v1/transaction", "txid={dstx."+o.name+".b}&encoded=1"),
+		httpGet("/api/v1/rawtx", "txid={dstx."+o.name+".b}"),
+		httpGet("/api/v1/uxout", "uxid={dsux."+o.name+"}"),
+		httpGet("/api/v1/address_uxouts", "address="+A),
+		httpGet("/api/v1/coinSupply", ""),
+		httpGet("/api/v1/richlist", "n=5"),
+		httpGet("/api/v1/addresscount", ""),
+		httpGet("/api/v1/wallets", ""),
+		httpJSON("/api/v2/transaction/verify", map[string]interface{}{"encoded_transaction": "{raw.ds." + o.name + ".c}"}),
+		httpJSON("/api/v2/transaction", map[string]interface{}{"hours_selection": map[string]interface{}{"type": "auto", "mode": "share", "share_factor": "0.5"},
+			"addresses": []interface{}{A}, "to": []interface{}{map[string]interface{}{"address": "{a1}", "coins": "0.5"}}}),
+		httpJSON("/api/v2/transaction", map[string]interface{}{"hours_selection": map[string]interface{}{"type": "auto", "mode": "share", "share_factor": "0.5"},
+			"ignore_unconfirmed": true, "unspents": []interface{}{"{dsux." + o.name + "}"}, "to": []interface{}{map[string]interface{}{"address": "{a1}", "coins": "0.5"}}}),
+		"http m=POST p=/api/v1/resendUnconfirmedTxns q= ct=none b=",
+		httpGet("/api/v1/health", ""),
+	}
+	if o.wid != "" {
+		qs = append(qs,
+			httpGet("/api/v1/wallet/balance", "id="+o.wid),
+			httpGet("/api/v1/wallet/transactions", "id="+o.wid+"&verbose=1"),
+			httpGet("/api/v1/wallet/transactions", "id="+o.wid),
+			httpGet("/api/v1/wallet", "id="+o.wid),
+			httpJSON("/api/v1/wallet/transaction", map[string]interface{}{"wallet_id": o.wid, "unsigned": true,
+				"hours_selection": map[string]interface{}{"type": "auto", "mode": "share", "share_factor": "0.5"},
+				"to":              []interface{}{map[string]interface{}{"address": "{a1}", "coins": "0.5"}}}),
+		)
+	}
+	// all of them, in a seeded order
+	for i := len(qs) - 1; i > 0; i-- {
+		j := g.r.Intn(i + 1)
+		qs[i], qs[j] = qs[j], qs[i]
+	}
+	for _, q := range qs {
+		emit(q)
+	}
+}
+
 func c28Gen(r *Rng, tier string, emit func(string)) {
 	// hlib seeds SplitMix64 with seed*GOLDEN+c, so consecutive seeds give the same stream shifted by one
 	// draw; re-seed from the first output to get unrelated streams per seed
@@ -724,7 +802,18 @@ func c28Gen(r *Rng, tier string, emit func(string)) {
 				}
 			}
 		}
+		// conflicting spends of one output in the pool, for one or two owners, early or in the middle of the stream
+		conflictAt := map[int]int{}
+		if c%2 == 0 || r.Intn(3) == 0 {
+			conflictAt[r.Intn(perCase/2)] = c / 2 % len(dsOwners)
+			if r.Bool() {
+				conflictAt[perCase/2+r.Intn(perCase/2)] = r.Intn(len(dsOwners))
+			}
+		}
 		for i := 0; i < perCase; i++ {
+			if oi, ok := conflictAt[i]; ok {
+				g.poolConflict(emit, oi)
+			}
 			p := paths[r.Intn(len(paths))]
 			// weight the transaction / wallet-spend endpoints (the deepest logic behind the API)
 			switch r.Intn(10) {
